@@ -142,6 +142,8 @@ def hist_configs(tier) -> list[dict]:
     # the staggered scheme iterated to convergence (several damage/displacement iterations per step) instead of the default
     # single pass: quick = the default configuration and its single-factor deviations, thorough = the full product, on QUAD4
     out += [dict(c, elemType="QUAD4", tolConv=1e-2) for c in deviations(factors, 1 if tier == "quick" else None)]
+    # every saved step followed by Set_Iter(-1) (a restart from the step just saved: a no-op for the state, history field included)
+    out += [dict(c, elemType="QUAD4", restore=True) for c in deviations(factors, 1 if tier == "quick" else None)]
     return out
 
 
@@ -770,6 +772,8 @@ def run_sequence(case, seq):
     base = dict(solver=solver, regu=case["regu"], split=split, elemType=case["elemType"])
     if "tolConv" in case:
         base["staggered"] = "converged"
+    if case.get("restore"):
+        base["restore"] = True
     v, obs = [], []
     d_prev = np.zeros(mesh.Nn)
     H_prev = None
@@ -788,6 +792,8 @@ def run_sequence(case, seq):
             else:
                 simu.Solve()
         simu.Save_Iter()
+        if case.get("restore"):
+            simu.Set_Iter(-1)
         d_saved = np.array(simu.Get_results(-1)["damage"], dtype=float)
         d_live = np.array(simu.damage, dtype=float)
         u = np.array(simu.displacement, dtype=float)
